@@ -9,6 +9,10 @@ from declgen import CTX
 def arg_literal(t):
     if t == CTX:
         return "ctx"
+    if t.startswith("[]"):
+        return '%s{{S: %s}}' % (t, json.dumps("A:" + t))
+    if t.startswith("map[string]"):
+        return '%s{"k": {S: %s}}' % (t, json.dumps("A:" + t))
     base = t.lstrip("*")
     fld = "s" if re.search(r"(St|OSt)$", base) else "S"
     lit = '%s{%s: %s}' % (base, fld, json.dumps("A:" + t))
@@ -222,7 +226,7 @@ def monitor(d, ob, facts, sc, res):
 # ------------------------------------------------------------------ the stage
 
 def stage(seed, tier):
-    key = "D-%s-%s-%s" % (vlib.repo_hash(), seed, tier)
+    key = "D-%s-%s-%s" % (vlib.repo_hash() + vlib.tools_hash(), seed, tier)
     cpath = os.path.join(vlib.CACHE, "stage", key + ".json")
     if os.path.exists(cpath) and not os.environ.get("VERIF_NOCACHE"):
         return json.load(open(cpath))
@@ -239,12 +243,15 @@ def _stage(seed, tier):
     mod = os.path.join(vlib.scratch(), "d")
     shutil.copytree(S["srcdir"], mod)
     bypkg = {}
+    suspicious = []
     for r in S["records"]:
-        if r["kind"] == "valid" and r["obs"] is not None and not r["problems"]:
+        if r["kind"] == "valid" and r["id"] and r["rc"] == 0 and (r["obs"] is not None or r.get("sig")):
             bypkg.setdefault(r["pkg"], []).append(r)
-    pk_names = sorted(bypkg)
+            if (r.get("model_mismatch") or r["problems"]) and r["pkg"] not in suspicious:
+                suspicious.append(r["pkg"])      # search for a failing execution where model and code disagree
     maxp = 4 if tier == "quick" else 24
-    pk_names = pk_names[:maxp]
+    rest = [p for p in sorted(bypkg) if p not in suspicious]
+    pk_names = suspicious[:8] + [p for p in rest if p.startswith("p")][:maxp] + [p for p in rest if p.startswith("y")]
     plans = {}
     for pk in pk_names:
         injs = []
@@ -252,6 +259,10 @@ def _stage(seed, tier):
         info = {}
         for r in bypkg[pk]:
             d, ob = r["decl"], r["obs"]
+            if ob is None:
+                sg = r["sig"]
+                ob = dict(params=sg["params"], results=sg["results"], reterr=(len(sg["results"]) == 2 and sg["results"][1] == "error"),
+                          main=[], gos=[[]], unparsed=True)
             facts = decl_facts(d)
             injs.append(dict(name=d["name"], params=ob["params"], reterr=ob["reterr"]))
             ss = scenarios_for(rnd, d, ob, facts, tier)
@@ -270,14 +281,31 @@ def _stage(seed, tier):
         if rc != 0:
             return pk, dict(build_rc=rc, build_err=(o + e)[-3000:], vet=vet, results=[], stderr="", run_rc=None)
         env = vlib.goenv({"GORACE": "halt_on_error=0"})
-        rc, o, e = vlib.run(["./drv", "scenarios.json"], cwd=d, env=env, timeout=900)
+        todo = json.load(open(os.path.join(d, "scenarios.json")))
         results = []
-        for line in o.splitlines():
-            try:
-                results.append(json.loads(line))
-            except ValueError:
-                pass
-        return pk, dict(build_rc=0, build_err="", vet=vet, results=results, stderr=e[-6000:], run_rc=rc)
+        crashes = []
+        stderr_all = ""
+        rc = 0
+        for attempt in range(8):
+            if not todo:
+                break
+            with open(os.path.join(d, "todo.json"), "w") as f:
+                json.dump(todo, f)
+            rc, o, e = vlib.run(["./drv", "todo.json"], cwd=d, env=env, timeout=900)
+            got = []
+            for line in o.splitlines():
+                try:
+                    got.append(json.loads(line))
+                except ValueError:
+                    pass
+            results += got
+            stderr_all += e[-6000:]
+            if len(got) >= len(todo):
+                break
+            # the process died inside scenario number len(got): record it and go on with the rest
+            crashes.append(dict(scenario=todo[len(got)], rc=rc, stderr=e[-2500:]))
+            todo = todo[len(got) + 1:]
+        return pk, dict(build_rc=0, build_err="", vet=vet, results=results, stderr=stderr_all[-8000:], run_rc=rc, crashes=crashes)
     outs = {}
     with ThreadPoolExecutor(max_workers=8) as ex:
         for pk, r in ex.map(build_and_run, pk_names):
@@ -296,11 +324,18 @@ def _stage(seed, tier):
         races = r["stderr"].count("WARNING: DATA RACE")
         if races:
             findings.append(dict(prop="C01", verdict="violation", pkg=pk, inj="<package>", detail="race detector: %d report(s): %s" % (races, r["stderr"][:2500]), scenario=None))
+        crashed = {c["scenario"]["id"]: c for c in r.get("crashes", [])}
         for sc in scs:
             res = byid.get(sc["id"])
             d, ob, facts = info[sc["inj"]]
             if res is None:
-                findings.append(dict(prop="C03", verdict="violation", pkg=pk, inj=sc["inj"], detail="driver produced no result (crash?) rc=%s stderr=%s" % (r["run_rc"], r["stderr"][-800:]), scenario=sc))
+                c = crashed.get(sc["id"])
+                if c:
+                    m = re.search(r"(panic: .*|fatal error: .*)", c["stderr"])
+                    inband = "_band.go" in c["stderr"]
+                    for prop in ("C01", "C02", "C03"):
+                        findings.append(dict(prop=prop, verdict="violation", pkg=pk, inj=sc["inj"], scenario=sc,
+                                             detail="the process crashed while the injector ran%s: %s" % (" (inside the generated file)" if inband else "", (m.group(1) if m else c["stderr"][-300:]))))
                 continue
             nscen += 1
             kinds[sc["kind"]] = kinds.get(sc["kind"], 0) + 1
